@@ -911,6 +911,25 @@ func (ru *run) directed(known *[]string) {
 	}
 	vo.Field(0).Set(reflect.New(inner.T))
 	ru.roundtripDirected(tcD, vo, "D01d")
+	// array rules: lexical order / no duplicates / both (the "lexical+nodup collapses to one validator" path), with
+	// duplicated, swapped and valid element sequences; decoded with validation and re-encoded
+	for _, ru0 := range []ARules{{NoDup: true, Lex: true}, {NoDup: true}, {Lex: true}, {Lex: true, Max: 2}, {NoDup: true, Lex: true, Min: 2}} {
+		ru1 := ru0
+		sl := &Node{K: KSlice, Elem: u16, T: reflect.SliceOf(u16.T)}
+		tcR := mk(sl, TS{L: ip(0), Rules: &ru1, LexOrd: bp(ru1.Lex && ru1.Max == 0)}, nil)
+		for _, in := range [][]byte{{2, 5, 0, 5, 0}, {2, 6, 0, 5, 0}, {2, 5, 0, 6, 0}, {3, 1, 0, 2, 0, 2, 0}, {1, 9, 9}, {0}, {3, 0, 1, 0, 1, 1, 0}} {
+			d := doDecode(tcR.sh, sl.T, in, true, false)
+			ru.addDec(tcR, true, in, d)
+			if d.cls == "" {
+				b2, cls2, _ := doEncode(tcR.sh, d.ptr.Elem(), true)
+				ru.addEnc(tcR, true, toCoq(tcR.eff, d.ptr.Elem()), b2, cls2)
+				if cls2 != "" || !bytes.Equal(b2, in[:d.n]) {
+					ru.fail("noncanonical-accepted", tcR, "directed array-rule case: validating Decode accepted bytes that do not re-encode to themselves", map[string]any{"in": hex.EncodeToString(in), "reencoded": clsOr(cls2, b2)})
+				}
+			}
+			ru.addDec(tcR, false, in, doDecode(tcR.sh, sl.T, in, false, false))
+		}
+	}
 	// D02d: []struct{} with an inflated count (uint16 prefix keeps it fast)
 	es := &Node{K: KStruct, T: reflect.StructOf(nil)}
 	zs := &Node{K: KSlice, Elem: es, T: reflect.SliceOf(es.T)}
